@@ -95,10 +95,6 @@ func (f *FSM) AddState(match string, matchMetricType string, maxPossibleTransiti
 				(*state).maxRemainingLength = len(matchFields) - i - 1
 				(*state).minRemainingLength = len(matchFields) - i - 1
 				root.transitions[field] = state
-				// if this is last field, set result to currentMapping instance
-				if i == len(matchFields)-1 {
-					root.transitions[field].Result = result
-				}
 			} else {
 				(*state).maxRemainingLength = max(len(matchFields)-i-1, (*state).maxRemainingLength)
 				(*state).minRemainingLength = min(len(matchFields)-i-1, (*state).minRemainingLength)
@@ -113,8 +109,14 @@ func (f *FSM) AddState(match string, matchMetricType string, maxPossibleTransiti
 		finalStates = append(finalStates, root)
 	}
 
+	// The first rule that ends in a state owns it: a state created earlier as an
+	// inner node of a longer rule still needs its result, and a later rule with
+	// the same pattern must not take over the priority of the earlier one.
 	for _, state := range finalStates {
-		state.ResultPriority = f.statesCount
+		if state.Result == nil {
+			state.Result = result
+			state.ResultPriority = f.statesCount
+		}
 	}
 
 	f.statesCount++
